@@ -154,9 +154,17 @@ Proof.
   apply andb_prop in H. destruct H as [H H5].
   apply andb_prop in H. destruct H as [H H4].
   apply andb_prop in H. destruct H as [H H3].
+  apply andb_prop in H. destruct H as [H _].
   apply andb_prop in H. destruct H as [H1 H2].
   apply Z.leb_le in H1. repeat split; try assumption.
   - apply orb_prop in H3. destruct H3 as [E|E]; [left; now apply Z.eqb_eq | right; now apply negb_true_iff].
+Qed.
+
+Lemma wf_tree_Sub_in_edge : forall d c r, wf_tree (Sub d (c :: r)) = true -> t_in_edge d = t_in_edge (tdata c).
+Proof.
+  intros d c r H. cbn [wf_tree] in H.
+  apply andb_prop in H. destruct H as [H _]. apply andb_prop in H. destruct H as [H _].
+  apply andb_prop in H. destruct H as [H _]. apply andb_prop in H. destruct H as [_ H]. now apply Z.eqb_eq.
 Qed.
 
 Lemma shape_flat : forall sc i p s, wf_tree s = true -> (i < p)%nat ->
@@ -304,3 +312,27 @@ Qed.
 
 Lemma Forall2_length_eq : forall (A B : Type) (R : A -> B -> Prop) l l', Forall2 R l l' -> length l = length l'.
 Proof. intros A B R l l' H. induction H; cbn [length]; [reflexivity | now rewrite IHForall2]. Qed.
+
+(** [lay] only looks at the shapes of the nodes *)
+Lemma lay_list_impl : forall (R R' : tree -> nat -> nat -> Prop) l,
+  Forall (fun c => forall i q, R c i q -> R' c i q) l -> forall i q, lay_list R l i q -> lay_list R' l i q.
+Proof.
+  intros R R' l H. induction H as [|c r Hc _ IHr]; intros i q HL; [exact I|].
+  destruct HL as [H1 H2]. split; [now apply Hc | now apply IHr].
+Qed.
+
+Lemma lay_shape : forall T1 T0, Forall2 (fun y x => shape y = shape x) T1 T0 ->
+  forall t i p, lay T0 t i p -> lay T1 t i p.
+Proof.
+  intros T1 T0 HF. induction t as [d | d c IH | d cs IH] using tree_ind2; intros i p HL.
+  - destruct HL as [(x & Hx & Hok) _]. split; [|exact I].
+    destruct (Forall2_nth_r _ _ _ _ _ _ _ HF Hx) as (y & Hy & Hs). exists y. split; [exact Hy|].
+    eapply node_ok_shape; [symmetry; exact Hs | exact Hok].
+  - destruct HL as [(x & Hx & Hok) HLc]. split; [|now apply IH].
+    destruct (Forall2_nth_r _ _ _ _ _ _ _ HF Hx) as (y & Hy & Hs). exists y. split; [exact Hy|].
+    eapply node_ok_shape; [symmetry; exact Hs | exact Hok].
+  - destruct HL as [(x & Hx & Hok) HLL]. split.
+    + destruct (Forall2_nth_r _ _ _ _ _ _ _ HF Hx) as (y & Hy & Hs). exists y. split; [exact Hy|].
+      eapply node_ok_shape; [symmetry; exact Hs | exact Hok].
+    + eapply lay_list_impl; [|exact HLL]. exact IH.
+Qed.
